@@ -46,3 +46,24 @@ build_litmus() {
   (cd "$VERIF_DIR/harness" && go build -modfile="$b/harness.mod" -overlay "$b/overlay-litmus.json" -o "$b/bin/litmusmc" ./cmd/litmusmc) > "$b/build-litmus.log" 2>&1 \
       || { cat "$b/build-litmus.log"; tool_error "building litmusmc failed"; return 2; }
 }
+
+# build_cff <builddir>: the cff tool from the working tree
+build_cff() {
+  local b="$1"
+  mkdir -p "$b/bin"
+  (cd "$VERIF_REPO" && go build -o "$b/bin/cff" ./cmd/cff) > "$b/build-cff.log" 2>&1 \
+      || { cat "$b/build-cff.log"; tool_error "building cff from $VERIF_REPO failed"; return 2; }
+}
+
+# build_gen_harness <builddir>: rewritten scheduler overlay + genmc orchestrator + cff tool
+build_gen_harness() {
+  local b="$1"
+  ensure_rewriter || return 2
+  rm -rf "$b/rw"; mkdir -p "$b/rw" "$b/bin"
+  "$VERIF_DIR/build/bin/rewrite" -repo "$VERIF_REPO" -out "$b/rw" -vs "$VERIF_DIR/engine/vs" \
+      -pkgs ./scheduler -overlay "$b/overlay.json" > "$b/rewrite.log" 2>&1 || { cat "$b/rewrite.log"; tool_error "rewriter failed"; return 2; }
+  harness_modfile "$b"
+  (cd "$VERIF_DIR/harness" && go build -modfile="$b/harness.mod" -overlay "$b/overlay.json" -o "$b/bin/genmc" ./cmd/genmc) > "$b/build.log" 2>&1 \
+      || { cat "$b/build.log"; tool_error "building genmc failed"; return 2; }
+  build_cff "$b" || return 2
+}
